@@ -92,6 +92,38 @@ def run_impl(lines, profile="debug", isolate=False, timeout=900):
 def run_model(lines, timeout=900):
     return run_lines([build.model_bin(), "--table", build.table_path()], lines, timeout)
 
+class ThmRunner:
+    """Runs the model with --thm: every parsed tree is followed by |P<premises>K<printer_tokens>, the two computable side
+    conditions of the round-trip theorem (Props/C12.v C12_round_trip). The suffix is split off before the model output is
+    compared with the implementation; the flags are kept for the theorem tie and for the evidence."""
+    def __init__(self):
+        self.flags = {}          # cid -> list of (P, K)
+        self.stats = {"trees": 0, "premises_hold": 0, "printer_tokens_hold": 0, "premises_and_tokens": 0}
+    def run(self, lines, timeout=900):
+        raw = run_lines([build.model_bin(), "--table", build.table_path(), "--thm"], lines, timeout)
+        out = {}
+        for cid, text in raw.items():
+            parts = []
+            fl = []
+            for field in text.split(" "):
+                if "|P" in field:
+                    body, suf = field.rsplit("|", 1)
+                    pk = (suf[1] == "1", suf[3] == "1")
+                    fl.append(pk)
+                    self.stats["trees"] += 1
+                    self.stats["premises_hold"] += pk[0]
+                    self.stats["printer_tokens_hold"] += pk[1]
+                    self.stats["premises_and_tokens"] += pk[0] and pk[1]
+                    parts.append(body)
+                else:
+                    parts.append(field)
+            out[cid] = " ".join(parts)
+            self.flags[cid] = fl
+        return out
+    def broken(self, cid):
+        """premises hold but the printer's text is not the token image the theorem speaks about"""
+        return any(p and not k for p, k in self.flags.get(cid, []))
+
 # ---------------------------------------------------------------- proof audit
 FORBIDDEN = re.compile(r"\b(Admitted|admit|Axiom|Axioms|Parameter|Parameters|Conjecture|Conjectures|Abort All)\b|"
                        r"Unset\s+Guard\s+Checking|Unset\s+Positivity|Unset\s+Universe\s+Checking|bypass_check|"
